@@ -291,5 +291,60 @@ def r15_7(ctx):
     return r
 
 
+def r15_8(ctx):
+    """RFC 8285 4.2 one-byte header extension elements: one byte `ID(4) | L(4)` with L = length-1, followed by
+    `length` data bytes; ID 15 stops parsing, ID 0 is padding. The writer (set_extension) and the two readers
+    (get_extension, the re-parse inside set_extension) must use the same packing."""
+    r = RuleResult("R15.8", "K6", "one-byte header extension element: ID << 4 | (len - 1), read back as ID = b >> 4, len = (b & 0x0F) + 1")
+    se, ge = ctx.body("rtp::RtpHeader::set_extension"), ctx.body("rtp::RtpHeader::get_extension")
+    r.scope += [se.name, ge.name]
+
+    def has_pack(b):
+        for bi, si, st in b.assigns():
+            t = b.term_rvalue(st["rv"])
+            if t[0] == "bin" and t[1] == "BitOr" and t[2][0] == "bin" and t[2][1] == "Shl" and mir.int_value(t[2][3]) == 4 and \
+                    t[2][2] == ("arg", "id") and mir.has(t[3], lambda x: x[0] == "bin" and x[1] in ("Sub", "SubUnchecked") and mir.int_value(x[3]) == 1 and
+                                                        mir.has(x[2], lambda y: y[0] == "call" and y[1].endswith("::len"))):
+                return b.where(bi, si)
+        return None
+
+    def unpack_sites(b):
+        ids, lens = [], []
+        for bi, si, st in b.assigns():
+            t = b.term_rvalue(st["rv"])
+            if t[0] == "bin" and t[1] == "Shr" and mir.int_value(t[3]) == 4:
+                ids.append(b.where(bi, si))
+            if t[0] == "bin" and t[1] in ("Add", "AddUnchecked") and mir.int_value(t[3]) == 1 and \
+                    mir.has(t[2], lambda x: x[0] == "bin" and x[1] == "BitAnd" and mir.int_value(x[3]) == 0x0F):
+                lens.append(b.where(bi, si))
+        return ids, lens
+    w = has_pack(se)
+    if w:
+        r.ok({"writer": w, "packs": "(id << 4) | (data.len() - 1)"})
+    else:
+        r.violate(se.name, "pack", se.where(0), "set_extension does not build the element header as (id << 4) | (data.len() - 1)")
+    for b in (ge, se):
+        ids, lens = unpack_sites(b)
+        if ids and lens:
+            r.ok({"reader": b.name, "id": ids[0], "len": lens[0]})
+        else:
+            r.violate(b.name, "unpack", b.where(0), "the one-byte element header is not read back as id = b >> 4, len = (b & 0x0F) + 1")
+    # admission: id in 1..=14, 1 <= len <= 16
+    consts = set()
+    for bi, si, st in se.assigns():
+        rv = st["rv"]
+        if rv["r"] == "bin" and rv["op"] in ("Eq", "Ne", "Ge", "Gt", "Lt", "Le"):
+            for o in (rv["a"], rv["b"]):
+                v = mir.int_value(se.term_operand(o))
+                if isinstance(v, int):
+                    consts.add((rv["op"], v))
+    need = {("Ge", 15), ("Gt", 16)}
+    if need <= consts and (("Eq", 0) in consts):
+        r.ok({"admission": "id != 0 && id < 15, 1 <= data.len() <= 16"})
+    else:
+        r.violate(se.name, "admission", se.where(0), "set_extension no longer restricts id to 1..=14 and the data length to 1..=16 (comparisons found: %s)" % sorted(consts))
+    return r
+
+
 def run(ctx):
-    return [r15_1(ctx), r15_2(ctx), r15_3(ctx), r15_4(ctx), r15_5(ctx), r15_6(ctx), r15_7(ctx)]
+    return [r15_1(ctx), r15_2(ctx), r15_3(ctx), r15_4(ctx), r15_5(ctx), r15_6(ctx), r15_7(ctx), r15_8(ctx)]
